@@ -87,6 +87,9 @@ def run_property(prop, tier, seed, replay_only=None):
     # order: seed permutes scheduling only
     import random
     rnd = random.Random(seed)
+    if os.environ.get("VERIF_ONLY"):  # mutant campaigns: only the harnesses expected to notice the change (recorded as such in the catch matrix)
+        import re as _re
+        hs = [h for h in hs if _re.search(os.environ["VERIF_ONLY"], h)]
     hs = sorted(hs, key=lambda h: -registry.H[h].get("timeout", 300))
     if seed:
         rnd.shuffle(hs)
